@@ -58,6 +58,11 @@ def run(c):
         # leads to a definition, so no ordering of it may report anything
         if key == "generated":
             for s in ok:
+                # ... and every stored value is what its definition denotes in the finished database (a dependency
+                # the sort did not see would have been read differently while loading)
+                if s.oracle.get("fixedPointBad"):
+                    c.violation("generated-fixedpoint:%s" % s.id, "C12: in %s (%s) the stored values of %s differ from what their definitions denote in the loaded database (a reference was resolved before what it refers to was loaded)" % (s.id, s.desc[:80], s.oracle["fixedPointBad"][:4]),
+                                lc.replay_body(s, {"names": s.oracle["fixedPointBad"][:50]}), found=True)
                 if s.impl_errors():
                     c.violation("generated-errors:%s" % s.id, "C12: forward references do not resolve: loading %s (%s) reports %s" % (s.id, s.desc[:100], s.impl_errors()[:3]),
                                 lc.replay_body(s, {"errors": s.impl_errors()[:50]}), found=True)
